@@ -755,7 +755,7 @@ def oracle_scenarios(ctx):
     # a run that starts, advances and completes while the link to a peer keeps failing: the backlog holds several
     # notes incl. the completion and is retried several times before it gets through
     for n in (2, 3):
-        for fault in ("down", "fail"):
+        for fault in ("down", "fail", "slow"):
             for retries in (1, 2, 3):
                 acts = [["link", 0, 1, fault], ["in", 0, 1], ["out", 0], ["in", 0, 2], ["out", 0], ["in", 0, 3], ["out", 0]]
                 for _ in range(retries):
@@ -765,7 +765,7 @@ def oracle_scenarios(ctx):
     # a backlog holding records of ONE kind only (a halt, a completion, progress), then healing with no further input:
     # the backlog has to be retried on its own
     for n in (2, 3):
-        for fault in ("down", "fail"):
+        for fault in ("down", "fail", "slow"):
             for pat, pre, last in (("strict", [1], 3), ("strict", [1, 2], 1), ("abc", [1, 2], 3), ("abc", [1], 2), ("loop", [1, 2], 2)):
                 acts = [["in", 0, d] for d in pre] + [["out", 0]] * len(pre) + [["upd", x] for x in range(1, n)]
                 acts += [["link", 0, 1, fault], ["in", 0, last], ["out", 0]]
@@ -805,7 +805,7 @@ def oracle_scenarios(ctx):
                 acts.append(["upd", i])
             elif r < 0.90:
                 j = rng.choice([x for x in range(n) if x != i])
-                acts.append(["link", i, j, rng.choice(("down", "down", "fail", "up"))])
+                acts.append(["link", i, j, rng.choice(("down", "down", "fail", "up", "slow"))])
             else:
                 acts.append(["clock", rng.choice((1, 5, 10, 31, 61))])
         recv = rng.choice((None, None, [100, 37, 300], [64]))
